@@ -113,7 +113,16 @@ def fault_points(case):
     return pts
 
 
-def run_publish(work, orders, fault, mode, calls_log):
+def nonatomic_put_item(self, *path, source=None):
+    """A store honouring the PipelineIo interface whose writes are NOT atomic: an interrupted
+    transfer leaves a truncated item under its final name (what a plain open(...,'wb') does)."""
+    fpath = self._make_item_name(path)
+    os.makedirs(os.path.split(fpath)[0], exist_ok=True)
+    with open(fpath, "wb") as f:
+        shutil.copyfileobj(source, f)
+
+
+def run_publish(work, orders, fault, mode, calls_log, store_kind="local"):
     """run PipelineManager.publish with `fault` = [image, kind, name] or None.
     mode: 'fail' (raise OSError in-process) or 'crash' (fork + os._exit).
     Returns 'ok' | 'failed' | 'crashed'."""
@@ -122,7 +131,8 @@ def run_publish(work, orders, fault, mode, calls_log):
 
     def body(action):
         mgr = tp.PipelineManager(work)
-        orig_put = local_io.LocalPipelineIo.put_item
+        saved_put = local_io.LocalPipelineIo.put_item
+        orig_put = saved_put if store_kind == "local" else nonatomic_put_item
         real_os = tp.os
         real_rename = os.rename
 
@@ -155,7 +165,7 @@ def run_publish(work, orders, fault, mode, calls_log):
         try:
             mgr.publish()
         finally:
-            local_io.LocalPipelineIo.put_item = orig_put
+            local_io.LocalPipelineIo.put_item = saved_put
             tp.os = real_os
 
     if mode == "crash" and fault is not None:
@@ -202,13 +212,13 @@ def store_state(store, content, case):
     return st_
 
 
-def check_invariants(work, store, content, case, calls_log, what):
+def check_invariants(work, store, content, case, calls_log, what, judge_state=True):
     state = store_state(store, content, case)
     for im in case["images"]:
         uid = im["id"]
         s = state[uid]
         others_ok = all(v == "ok" for n, v in s.items() if n != "index.wtml")
-        if s["index.wtml"] != "missing" and not others_ok:
+        if judge_state and s["index.wtml"] != "missing" and not others_ok:
             bad = {n: v for n, v in s.items() if n != "index.wtml" and v != "ok"}
             raise Violation("index-last", f"{what}: the store holds index.wtml of image {uid} while other files are {bad}")
         in_app = os.path.isdir(os.path.join(work, "approved", uid))
@@ -296,23 +306,30 @@ def register_source():
 def one_history(case, faults, what0):
     """faults: list of (point, mode). Fresh working directory; faulty runs, then a clean one."""
     n_runs = 0
+    kind = case.get("store", "local")
+    what0 = what0 + f"; store={kind}"
     with fresh_dir("c18-") as d:
         work, store, orders, content = setup_workdir(d, case)
         log = os.path.join(d, "calls.log")
-        for (pt, mode) in faults:
+        for fi, (pt, mode) in enumerate(faults):
             if os.path.exists(log):
                 os.unlink(log)
             what = f"{what0}; fault {mode} at {pt}"
             with toasty_call("publish", what):
-                res = run_publish(work, orders, pt, mode, log)
+                res = run_publish(work, orders, pt, mode, log, kind)
             n_runs += 1
-            check_invariants(work, store, content, case, log, what)
-            check_refresh(work, store, content, case, what)
+            # with a store whose writes are not atomic, a SECOND faulty attempt can truncate a file that
+            # sits next to the first attempt's index.wtml whatever publish does: only the first fault's
+            # state is judged there (call order and completion are judged always)
+            judge_state = kind == "local" or fi == 0
+            check_invariants(work, store, content, case, log, what, judge_state)
+            if judge_state:
+                check_refresh(work, store, content, case, what)
         if os.path.exists(log):
             os.unlink(log)
         what = f"{what0}; clean run after faults {[f[0] for f in faults]}"
         with toasty_call("publish", what):
-            res = run_publish(work, orders, None, "fail", log)
+            res = run_publish(work, orders, None, "fail", log, kind)
         n_runs += 1
         if res != "ok":
             raise Violation("rerun-completes", f"{what}: the clean re-run did not complete ({res})")
@@ -345,7 +362,7 @@ def exec_case(case):
         faults = [(pts[i % len(pts)], m) for i, m in seq]
         n += one_history(case, faults, what0)
     n += one_history(case, [], what0)
-    cls = [f"images{len(case['images'])}"]
+    cls = [f"images{len(case['images'])}", "store:" + case.get("store", "local")]
     for im in case["images"]:
         names = [f[0] for f in im["files"]]
         k = names.index("index.wtml")
@@ -370,7 +387,7 @@ def strat(draw, tier):
         files = [[n, draw(st.sampled_from([0, 1, 17, 1000, 4096]))] for n in names]
         images.append({"id": f"img{i}_{draw(st.integers(0, 9))}", "files": files})
     seqs = draw(st.lists(st.lists(st.tuples(st.integers(0, 200), st.sampled_from(["fail", "crash"])), min_size=1, max_size=3), max_size=3))
-    return {"images": images, "sequences": [[list(t) for t in s] for s in seqs]}
+    return {"images": images, "sequences": [[list(t) for t in s] for s in seqs], "store": draw(st.sampled_from(["local", "local", "nonatomic"]))}
 
 
 PARTS = [
